@@ -507,7 +507,7 @@ func (g *cg) genFn(idx int) gen.Expr {
 
 	// result
 	switch k := g.u(10, "retkind"); {
-	case k <= 1:
+	case k <= 2:
 		// returning a function that captures a param / local / cell
 		f.Shapes["retfn"] = true
 		f.Shapes["closure"] = true
@@ -529,7 +529,7 @@ func (g *cg) genFn(idx int) gen.Expr {
 			ret(arr(id(capt), id(cn))),
 		}}
 		body = append(body, ret(inner))
-	case k == 2:
+	case k == 9:
 		// no return statement: undefined
 	case k == 3 && f.Variadic:
 		body = append(body, ret(id("va")))
@@ -583,7 +583,7 @@ func (g *cg) caught(body ...gen.Stmt) gen.Stmt {
 }
 
 func (g *cg) planStmt() []gen.Stmt {
-	switch k := g.u(16, "plan"); {
+	switch k := g.u(17, "plan"); {
 	case k <= 3:
 		g.feat["ctx-caught"]++
 		x, _ := g.callExpr("pc")
@@ -634,7 +634,7 @@ func (g *cg) planStmt() []gen.Stmt {
 			Init: def(i, ilit(0)), Cond: bin("<", id(i), ilit(2+g.u(3, "loopn"))), Post: &gen.IncDec{Target: id(i), Inc: true},
 			Body: []gen.Stmt{g.caught(pushOut(x))},
 		}}
-	case k == 10:
+	case k == 10 || k == 15:
 		// call a function that returns a function, then call the result through CALL as well
 		var cands []*fnInfo
 		for _, f := range g.fns {
@@ -682,6 +682,15 @@ func (g *cg) planStmt() []gen.Stmt {
 		g.feat["ctx-main-import"]++
 		mv := g.name("mm")
 		return []gen.Stmt{def(mv, &gen.Import{Name: "m0"}), pushOut(callN("L", arr(slit("main.m0"), call(sel(id(mv), "inc"), ilit(100)))))}
+	case k == 16 && g.nmod > 0:
+		// a function exported by a module (closure over the module's private state) invoked from Go
+		g.feat["ctx-module-fn"]++
+		var fn gen.Expr = sel(&gen.Import{Name: "m0"}, "inc")
+		args := []gen.Expr{g.lit("mfa")}
+		if g.nmod > 1 && g.chance(40, "mfm1") {
+			fn, args = sel(&gen.Import{Name: "m1"}, "bump"), nil
+		}
+		return []gen.Stmt{g.caught(pushOut(callN("CALL", append([]gen.Expr{fn}, args...)...)))}
 	case k == 14:
 		// state mutated by the parent between calls
 		g.feat["ctx-main-mutate"]++
